@@ -13,7 +13,9 @@ RULE = ("P1: over every integer matrix of order NN with entries in -Mag..Mag (qu
         "diagonal and L L^T = A, rejection of non-PD input, triangular systems inverted; the SPD matrices again times "
         "2^-80, 2^60, 2^-600 and 2^560: the factor is the factor times the root of the scale, bit for bit; LU of every "
         "matrix times 2^-600 and 2^560: same pivots, same L, U times the scale, bit for bit, at slice and Matrix level."
-        " Case class = (event kind, matrix class).")
+        " SPD matrices with one off-diagonal entry (above, then below the diagonal; corner and first pair) moved by one "
+        "ulp - symmetric by the code's own relative test: slice and Matrix level agree on acceptance and on every bit "
+        "of the factor (both read the lower triangle). Case class = (event kind, matrix class).")
 ASSUMPTIONS = ["exact certificates need factors that rationalise with denominators <= 4096: order <= 4, small integer entries",
                "a singular positive semi-definite matrix is on the rounding boundary of 'not positive definite': either outcome accepted",
                "orders 5..32 and cond 1e8 are outside the exact domain (see C01 for the scaled-residual observation)"]
